@@ -281,8 +281,8 @@ def wide_ddl_phase(chk):
     once the index B-tree has more than one leaf, and after a reopen"""
     import widetable
     thorough = chk.tier == "thorough"
-    dh = widetable.walks(chk, 80 if thorough else 10, 20 if thorough else 12, n=700, ddl=True)
-    probs, st = widetable.judge(dh, widetable.execute(dh, n=700, ddl=True), n=700)
+    dh = widetable.walks(chk, 120 if thorough else 30, 20 if thorough else 10, n=1000, ddl=True)
+    probs, st = widetable.judge(dh, widetable.execute(dh, n=1000, ddl=True), n=1000)
     late = sum(1 for h in dh for x in h if x["op"]["k"] == "create_index" and x["probes"]["count"] >= 100)
     if not late:
         raise vlib.ToolError("no WideTable walk created an index on a table of 100 rows or more")
@@ -308,7 +308,7 @@ def replay(chk, path):
         import widetable
         vlib.build_harness()
         h = rep["wide_hist"]
-        probs, st = widetable.judge([h], widetable.execute([h], n=700, ddl=True), n=700)
+        probs, st = widetable.judge([h], widetable.execute([h], n=1000, ddl=True), n=1000)
         print("replayed:", widetable.describe(h))
         for hp, k, d in probs:
             print("  %s after step %d: %s" % (k, len(hp), json.dumps(d)[:300]))
